@@ -374,7 +374,9 @@ class Signed(BitVector):
         if rhs == 0:
             return Signed[result_width]()
 
-        return Signed[result_width](lhs - rhs * int(lhs / rhs))
+        # exact remainder with the sign of the dividend (no float division)
+        remainder = abs(lhs) % abs(rhs)
+        return Signed[result_width](-remainder if lhs < 0 else remainder)
 
     @_intrinsic
     def _cohdl_rrem_(self, lhs: Signed) -> Signed:
@@ -394,7 +396,9 @@ class Signed(BitVector):
         if rhs == 0:
             return Signed[result_width]()
 
-        return Signed[result_width](lhs - rhs * int(lhs / rhs))
+        # exact remainder with the sign of the dividend (no float division)
+        remainder = abs(lhs) % abs(rhs)
+        return Signed[result_width](-remainder if lhs < 0 else remainder)
 
     @_intrinsic
     def __lshift__(self, rhs) -> Signed:
